@@ -3,3 +3,6 @@ import SmtpV.Props.C02
 #print axioms SmtpV.Props.C02.C02_eof_means_marker
 #print axioms SmtpV.Props.C02.C02_lookalikes
 #print axioms SmtpV.Props.data_monitor_accepts_model
+#print axioms SmtpV.Props.C02.C02_resume
+#print axioms SmtpV.Props.C02.C02_resume_escapes
+#print axioms SmtpV.Props.C02.C02_wf_fresh
